@@ -298,6 +298,7 @@ pub struct Stats {
     pub dup_checks: u64,
     pub order_checks_tiny: u64,
     pub big_roundtrips: u64,
+    pub zst_debug_checks: u64,
     pub dup_pos: u64,
 }
 
